@@ -5,10 +5,10 @@ package main
 // boundary interfaces as syntactic records.
 
 import (
-	"time"
 	"bytes"
 	"context"
 	"encoding/base64"
+	"encoding/binary"
 	"encoding/json"
 	"fmt"
 	"io"
@@ -21,6 +21,7 @@ import (
 	"strings"
 	"sync"
 	"sync/atomic"
+	"time"
 
 	"connectrpc.com/connect"
 	"connectrpc.com/vanguard"
@@ -221,8 +222,9 @@ type run struct {
 	sentReq  *http.Request
 	sentBody []byte
 	sb       *scriptBody
+	cw       *recWriter   // the client's writer (for scheduler gates)
 	bgPanic  atomic.Value // a panic inside the transcoder on one of the handler's own goroutines
-	hWrote   []byte // raw bytes the handler wrote (pass-through comparison)
+	hWrote   []byte       // raw bytes the handler wrote (pass-through comparison)
 	hStatus  int
 	hHeader  http.Header
 }
@@ -828,9 +830,101 @@ func (rn *run) unknownHandler() http.Handler {
 	})
 }
 
+// serveDuplex: reader and writer of one stream on two goroutines, scheduled through the client writer's gate.
+func (rn *run) serveDuplex(w http.ResponseWriter, req *http.Request) {
+	hd := rn.scn.Hd
+	form, codec := detectServerForm(req)
+	d := dispatchObs{Kind: "service", HTTP: req.Method, Major: req.ProtoMajor, Form: form, Proto: formProto(form), Codec: codec,
+		CLen: int(req.ContentLength), Accept: []string{}, Ctl: []string{}, Bad: []string{}, Frames: []frameObs{}, Diff: []string{},
+		Hdrs: []string{}, Lost: []string{}, PathOK: "rpc", Query: "none"}
+	h := w.Header()
+	switch form {
+	case "grpc":
+		h.Set("Content-Type", "application/grpc+"+codec)
+		h.Add("Trailer", "Grpc-Status")
+		h.Add("Trailer", "Grpc-Message")
+	case "grpcweb":
+		h.Set("Content-Type", "application/grpc-web+"+codec)
+	case "connect_stream":
+		h.Set("Content-Type", "application/connect+"+codec)
+	}
+	w.WriteHeader(http.StatusOK)
+	readFrame := func() ([]byte, error) {
+		env := make([]byte, 5)
+		if _, err := io.ReadFull(req.Body, env); err != nil {
+			return nil, err
+		}
+		p := make([]byte, binary.BigEndian.Uint32(env[1:]))
+		if _, err := io.ReadFull(req.Body, p); err != nil {
+			return nil, err
+		}
+		return append(env, p...), nil
+	}
+	first, err := readFrame()
+	if err == nil {
+		d.Frames, d.Rest = rn.observeFrames(form, codec, "", rn.reqDesc, first, 0, rn.scn.Cl.Frames)
+	}
+	// the writer goroutine stops inside its second write to the client (the payload; the envelope is out)
+	blocked, release := make(chan struct{}), make(chan struct{})
+	var nw atomic.Int64
+	var once sync.Once
+	if rn.cw != nil {
+		rn.cw.gate = func(op string) {
+			if op == "cwrite" && nw.Add(1) == 2 {
+				once.Do(func() { close(blocked) })
+				select {
+				case <-release:
+				case <-time.After(100 * time.Millisecond): // (an implementation that serialises the two sides gets here)
+				}
+			}
+		}
+	}
+	writerDone := make(chan struct{})
+	go func() {
+		defer close(writerDone)
+		defer func() {
+			if r := recover(); r != nil {
+				rn.bgPanic.Store(fmt.Sprint("handler writer goroutine: ", r))
+			}
+		}()
+		if len(hd.Frames) > 0 {
+			_, _ = w.Write(rn.respFrame(hd.Frames[0], codec, "", 0))
+			_ = http.NewResponseController(w).Flush()
+		}
+	}()
+	select {
+	case <-blocked:
+	case <-time.After(time.Second):
+	}
+	// the reader goroutine (this one) meets the malformed envelope
+	if _, err := readFrame(); err != nil {
+		d.ReadErr = "error"
+	}
+	close(release)
+	<-writerDone
+	d.HErr = 3
+	rn.mu.Lock()
+	rn.disp = append(rn.disp, d)
+	rn.mu.Unlock()
+	// a faithful server ends the RPC with an error of its own (the transcoder has ended it already)
+	switch form {
+	case "grpc":
+		w.Header().Set("Grpc-Status", "3")
+		w.Header().Set("Grpc-Message", "malformed request")
+	case "grpcweb":
+		_, _ = w.Write(envelope(0x80, []byte("grpc-status: 3\r\ngrpc-message: malformed request\r\n")))
+	case "connect_stream":
+		_, _ = w.Write(envelope(0x02, []byte(`{"error":{"code":"invalid_argument","message":"malformed request"}}`)))
+	}
+}
+
 func (rn *run) serveBackend(kind string, w http.ResponseWriter, req *http.Request) {
 	hd := rn.scn.Hd
 	rn.hctx.set(req.Context())
+	if hd.Duplex && kind == "service" {
+		rn.serveDuplex(w, req)
+		return
+	}
 	form, codec := detectServerForm(req)
 	d := dispatchObs{Kind: kind, HTTP: req.Method, Major: req.ProtoMajor, Form: form, Proto: formProto(form), Codec: codec,
 		CLen: int(req.ContentLength), Accept: []string{}, Ctl: []string{}, Bad: []string{}, Frames: []frameObs{}, Diff: []string{}}
@@ -1930,6 +2024,7 @@ func runOn(sh *sharedTC, scn *scenario, seed int64, rpcID string) (obs observati
 	var done atomic.Bool
 	body.done = &done
 	w := newRecWriter(&done)
+	rn.cw = w
 	res := serve(tc, req, body, w, &done, scn.Cl.NoFlush || scn.Cl.Rej == "noflusher")
 	obs.Disp = rn.disp
 	obs.Cl = rn.parseClient(scn.Cl.Form, res)
